@@ -252,9 +252,17 @@ def live_layers(cls):
             new = d["__new__"]
             new = getattr(new, "__func__", new)
             s = sig_of_callable(new, True)
-            if s["po"] or s["pk"] or s["ko"] or not s["va"] or not s["vk"]:
-                raise ValueError("user-defined __new__ that is not the service wrapper: outside the model")
-            layer["service"] = True
+            if not (s["po"] or s["pk"] or s["ko"]) and s["va"] and s["vk"]:
+                layer["service"] = True          # the wrapper as it is: (cls, *args, **kwargs)
+            else:
+                # a wrapper that advertises the signature of the __init__ that runs (what a repair of the
+                # known defect would do) is, for inspect and for binding alike, that __init__
+                running = init_function(base)
+                if running is None or s != sig_of_callable(running, True):
+                    raise ValueError("user-defined __new__ that is not the service wrapper: outside the model")
+                layer["init"] = s
+                out.append(layer)
+                continue
         if "__init__" in d:
             layer["init"] = sig_of_callable(d["__init__"], True)
         out.append(layer)
